@@ -148,7 +148,10 @@ def parse(
                     # If there's no condition, it's an infinite loop
                     condition = [lexer.Token(lexer.TokenType.NUMBER, "1")]
                 else:
-                    condition = parse(branches[0], structure_cls)
+                    # The condition is evaluated outside the loop body (once
+                    # before the loop as well), so it is not a place from
+                    # which the loop can be left or continued.
+                    condition = parse(branches[0], None)
                 structures.append(
                     structure.WhileLoop(
                         condition, parse(branches[-1], structure_cls)
